@@ -1,13 +1,12 @@
 (* C14_wrap_proofs.v — C14 (e): wrapping contiguous, non-empty parts of selection lists in untyped
    inline fragments without directives ( a b c  ~>  a ... { b c } ), anywhere in the document, any
    number of times, nested ([wrap_doc d d']).
-     - every rule's specification predicate except FieldsOnCorrectType is invariant  (violated_wrap);
-     - FieldsOnCorrectType is invariant up to its clause "a __typename directly at a subscription
-       root" (wrapping hides such a __typename: wrap_fields_on_correct_type_cex); where the schema has
-       a subscription root type SingleFieldSubscriptions rejects both documents, hence
-     - accept / reject ([spec_valid]) is invariant provided the schema has a subscription root type
-       or no subscription operation of d selects __typename directly  (spec_valid_wrap; the proviso is
-       needed: wrap_spec_valid_cex). *)
+     - every rule's specification predicate is invariant, FieldsOnCorrectType included: its clause
+       "a __typename at a subscription root" looks through inline fragments without a type
+       condition ([root_typename_fields])                                        (violated_wrap);
+     - hence accept / reject ([spec_valid]) is invariant                        (spec_valid_wrap);
+     - and so is the verdict of each rule of the model                          (run_alone_wrap).
+   Wrapping an EMPTY part is excluded: wrap_empty_cex. *)
 From GT Require Import Visitor Validate Merge.
 From Coq Require Import Permutation.
 From GTS Require Import Annot WfSchema SpecCollect SpecRules SpecValues SpecMerge SpecValid.
@@ -54,6 +53,10 @@ Section Emb.
       destruct (IH Hy) as [(x & Hx & Hr)|H]; [left; exists x; split; [right; exact Hx|exact Hr]|right; exact H].
     - destruct Hy as [->|Hy]; [right; exact He|apply IH, Hy].
   Qed.
+
+  Lemma emb_no_extras_nil l l' : emb R E l l' -> (forall y, ~ E y) ->
+    match l with [] => false | _ :: _ => true end = match l' with [] => false | _ :: _ => true end.
+  Proof. intros [|x y r r' _ _|y r r' Hy _] Hno; [reflexivity|reflexivity|destruct (Hno y Hy)]. Qed.
 
   Lemma emb_existsb (p : A -> bool) (p' : B -> bool) l l' :
     emb R E l l' -> (forall x y, R x y -> p x = p' y) -> (forall y, E y -> p' y = false) ->
@@ -206,6 +209,40 @@ Lemma doc_selections_emb d d' : wrap_doc d d' -> emb wsel is_wrapper (doc_select
 Proof.
   intro H. unfold doc_selections. apply (F2_flat_map_emb wdef). eapply Forall2_impl_in; [|exact H].
   intros x y _ Hxy. apply sels_all_emb, wdef_sels, Hxy.
+Qed.
+
+(* ---- the __typename fields at the root of a selection set: the same fields (up to the rewrite below
+   them), no extras: a wrapper contributes exactly the root __typename fields of its content ---- *)
+Notation remb := (emb wsel (fun _ : selection => False)).
+Lemma root_typename_wrapper p sp m : exists a b : list selection,
+  root_typename_fields_of (SInline p None [] sp m) = a ++ flat_map root_typename_fields_of m ++ b /\
+  Forall (fun _ => False) a /\ Forall (fun _ => False) b.
+Proof. exists [], []. cbn [root_typename_fields_of app]. rewrite app_nil_r. repeat split; constructor. Qed.
+
+Lemma root_typename_fields_of_emb x : forall y, wsel x y ->
+  remb (root_typename_fields_of x) (root_typename_fields_of y).
+Proof.
+  induction x as [p al n args dirs sp sels IH|p n dirs|p tc dirs sp sels IH] using selection_ind';
+    intros y Hxy; inversion Hxy as [? ? ? ? ? ? ? sels' Hs|?|? ? ? ? ? sels' Hs]; subst;
+    cbn [root_typename_fields_of].
+  - destruct (name_eqb n "__typename"); [apply emb_one, Hxy|constructor].
+  - constructor.
+  - destruct tc as [tc|]; [constructor|].
+    apply (wlist_emb wsel (fun _ => False) root_typename_fields_of root_typename_fields_of);
+      [apply root_typename_wrapper|exact Hs|exact IH].
+Qed.
+Lemma root_typename_fields_emb l l' : wsels l l' -> remb (root_typename_fields l) (root_typename_fields l').
+Proof.
+  intro H. unfold root_typename_fields.
+  apply (wlist_emb wsel (fun _ => False) root_typename_fields_of root_typename_fields_of);
+    [apply root_typename_wrapper|exact H|].
+  apply Forall_forall. intros x _. apply root_typename_fields_of_emb.
+Qed.
+Lemma root_typename_fields_wrap l l' : wsels l l' ->
+  Forall2 wsel (root_typename_fields l) (root_typename_fields l').
+Proof.
+  intro H. apply root_typename_fields_emb in H.
+  induction H as [|x y r r' Hxy _ IH|y r r' [] _ _]; constructor; assumption.
 Qed.
 
 (* ------------------------------------------------------------------ the annotation *)
@@ -577,7 +614,8 @@ Section WRules.
     rewrite E. reflexivity.
   Qed.
 
-  (* the clause of FieldsOnCorrectType about the fields (its other clause: [subscription_typename]) *)
+  (* FieldsOnCorrectType = [fields_undefined s d || subscription_typename d] (definitionally): the clause
+     about the fields, and the clause "a __typename at a subscription root" *)
   Definition fields_undefined (s : sdocument) (d : document) : bool :=
     existsb (fun fe : selection * env =>
                let '(f, e) := fe in
@@ -593,7 +631,7 @@ Section WRules.
   Definition subscription_typename (d : document) : bool :=
     existsb (fun o => match o_kind o with
                       | OpSubscription =>
-                          existsb (fun x => match x with SField _ _ n _ _ _ _ => name_eqb n "__typename" | _ => false end) (o_sels o)
+                          match root_typename_fields (o_sels o) with [] => false | _ :: _ => true end
                       | _ => false
                       end) (operations_of d).
   Lemma fields_on_correct_type_split s0 d0 :
@@ -606,6 +644,15 @@ Section WRules.
     intros [f e] [f' e'] _ [Hf He]. cbn [fst snd] in *. subst e'.
     destruct (wsel_fields _ _ Hf) as (_ & Hn & _). rewrite Hn. reflexivity.
   Qed.
+  Lemma subscription_typename_wrap : subscription_typename d = subscription_typename d'.
+  Proof.
+    unfold subscription_typename. apply (F2_existsb wop). eapply Forall2_impl_in; [|apply wdoc_ops, Hd].
+    intros o o' _ H. destruct (wop_fields _ _ H) as (Hk & _ & _ & _ & _ & _ & Hs). rewrite <- Hk.
+    destruct (o_kind o); try reflexivity.
+    apply (emb_no_extras_nil wsel (fun _ => False)); [apply root_typename_fields_emb, Hs|intros _ []].
+  Qed.
+  Lemma w_fields_on_correct_type : v_fields_on_correct_type s d = v_fields_on_correct_type s d'.
+  Proof. rewrite !fields_on_correct_type_split, w_fields_undefined, subscription_typename_wrap. reflexivity. Qed.
 
   Lemma w_possible_fragment_spreads : v_possible_fragment_spreads s d = v_possible_fragment_spreads s d'.
   Proof.
@@ -1158,10 +1205,9 @@ Proof.
 Qed.
 
 (* ------------------------------------------------------------------ all rules *)
-Theorem violated_wrap : forall r s d d', wrap_doc d d' -> r <> R_FieldsOnCorrectType ->
-  violated r s d = violated r s d'.
+Theorem violated_wrap : forall r s d d', wrap_doc d d' -> violated r s d = violated r s d'.
 Proof.
-  intros r s d d' Hd Hr. destruct r; cbn [violated].
+  intros r s d d' Hd. destruct r; cbn [violated].
   - apply w_unique_operation_names, Hd.
   - apply w_lone_anonymous, Hd.
   - apply w_single_field_subscriptions, Hd.
@@ -1169,7 +1215,7 @@ Proof.
   - apply w_fragments_on_composite, Hd.
   - apply w_variables_are_input_types, Hd.
   - apply w_leaf_field_selections, Hd.
-  - contradiction Hr; reflexivity.
+  - apply w_fields_on_correct_type, Hd.
   - apply w_unique_fragment_names, Hd.
   - apply w_known_fragment_names, Hd.
   - apply w_no_unused_fragments, Hd.
@@ -1188,90 +1234,22 @@ Proof.
   - apply w_unique_directives_per_location, Hd.
 Qed.
 
-(* FieldsOnCorrectType: the clause about the fields is invariant; the clause "a __typename directly at a
-   subscription root" can only get lost *)
-Lemma wlist_existsb_back (p : selection -> bool) l l' : wsels l l' ->
-  (forall x y, wsel x y -> p x = p y) -> (forall y, is_wrapper y -> p y = false) ->
-  existsb p l' = true -> existsb p l = true.
-Proof.
-  intros H Hr He. induction H as [|x y l l' Hxy _ IH|q sp mid mid' l l' _ _ _ _ IHl]; cbn [existsb].
-  - exact (fun H => H).
-  - rewrite (Hr x y Hxy). intro H. apply orb_true_iff in H. apply orb_true_iff.
-    destruct H as [H|H]; [left; exact H|right; apply IH, H].
-  - rewrite (He (SInline q None [] sp mid')) by (exists q, sp, mid'; reflexivity). cbn [orb]. intro H.
-    rewrite existsb_app. apply orb_true_iff. right. apply IHl, H.
-Qed.
-
-Lemma subscription_typename_wrap d d' : wrap_doc d d' ->
-  subscription_typename d' = true -> subscription_typename d = true.
-Proof.
-  intros Hd H. unfold subscription_typename in *. pose proof (wdoc_ops _ _ Hd) as Hops.
-  induction Hops as [|o o' l l' Ho _ IH]; [exact H|]. cbn [existsb] in *. apply orb_true_iff in H. apply orb_true_iff.
-  destruct H as [H|H]; [left|right; apply IH, H].
-  destruct (wop_fields _ _ Ho) as (Hk & _ & _ & _ & _ & _ & Hs). rewrite <- Hk in H. destruct (o_kind o); try discriminate.
-  eapply wlist_existsb_back; [exact Hs| | |exact H].
-  - intros x y []; reflexivity.
-  - intros y (q & sp & m & ->). reflexivity.
-Qed.
-
+(* FieldsOnCorrectType, the rule that used to be the exception: both of its clauses are invariant, the
+   clause "a __typename at a subscription root" because it looks through the wrappers *)
 Theorem violated_wrap_fields_on_correct_type : forall s d d', wrap_doc d d' ->
-  (violated R_FieldsOnCorrectType s d' = true -> violated R_FieldsOnCorrectType s d = true) /\
-  (subscription_typename d = false -> violated R_FieldsOnCorrectType s d = violated R_FieldsOnCorrectType s d').
+  fields_undefined s d = fields_undefined s d' /\
+  subscription_typename d = subscription_typename d' /\
+  violated R_FieldsOnCorrectType s d = violated R_FieldsOnCorrectType s d'.
 Proof.
-  intros s d d' Hd. cbn [violated]. rewrite !fields_on_correct_type_split, <- (w_fields_undefined s d d' Hd). split.
-  - intro H. apply orb_true_iff in H. apply orb_true_iff.
-    destruct H as [H|H]; [left; exact H|right; apply (subscription_typename_wrap d d' Hd), H].
-  - intro H. rewrite H. destruct (subscription_typename d') eqn:E; [|reflexivity].
-    apply (subscription_typename_wrap d d' Hd) in E. congruence.
+  intros s d d' Hd. split; [apply w_fields_undefined, Hd|]. split; [apply subscription_typename_wrap, Hd|].
+  apply violated_wrap, Hd.
 Qed.
 
 (* ------------------------------------------------------------------ accept / reject *)
-Lemma sm_in_field s d obj rec l x : In x l -> is_field_sel x = true -> forall v, In x (fst (sm s d obj rec l v)).
+Theorem spec_valid_wrap : forall s d d', wrap_doc d d' -> spec_valid s d = spec_valid s d'.
 Proof.
-  induction l as [|a l IH]; intros Hin Hf v; [destruct Hin|]. cbn [sm]. destruct Hin as [->|Hin].
-  - destruct x; try discriminate. cbn [so]. destruct (sm s d obj rec l v) as [b v2]. left. reflexivity.
-  - destruct (so s d obj rec a v) as [i1 v1]. specialize (IH Hin Hf v1).
-    destruct (sm s d obj rec l v1) as [b v2]. cbn [fst] in *. apply in_app_iff. right. exact IH.
+  intros s d d' Hd. unfold spec_valid. apply forallb_ext_in. intros r _. f_equal. apply violated_wrap, Hd.
 Qed.
-
-Lemma sfs_of_subscription_typename s d t : subscription_typename d = true -> root s OpSubscription = Some t ->
-  v_single_field_subscriptions s d = true.
-Proof.
-  intros H Hroot. unfold subscription_typename in H. apply existsb_exists in H. destruct H as (o & Ho & H).
-  unfold v_single_field_subscriptions. apply existsb_exists. exists o. split; [exact Ho|].
-  destruct (o_kind o); try discriminate. rewrite Hroot. apply existsb_exists in H. destruct H as (x & Hx & Hn).
-  cbv zeta. unfold spec_collect. apply orb_true_iff. right. rewrite group_introspection. apply existsb_exists. exists x. split.
-  - rewrite spec_collect_list_S. apply sm_in_field; [exact Hx|]. destruct x; try discriminate. reflexivity.
-  - destruct x as [p al n args dirs sp sels| |]; try discriminate. apply name_eqb_eq in Hn. subst n. reflexivity.
-Qed.
-
-Lemma forallb_false_in {A} (p : A -> bool) l x : In x l -> p x = false -> forallb p l = false.
-Proof.
-  intros Hin Hp. destruct (forallb p l) eqn:E; [|reflexivity]. rewrite forallb_forall in E. rewrite (E x Hin) in Hp. discriminate.
-Qed.
-
-Theorem spec_valid_wrap : forall s d d', wrap_doc d d' ->
-  (subscription_typename d = true -> is_some (root s OpSubscription) = true) ->
-  spec_valid s d = spec_valid s d'.
-Proof.
-  intros s d d' Hd Hsub. unfold spec_valid.
-  destruct (subscription_typename d) eqn:E.
-  - destruct (root s OpSubscription) as [t|] eqn:Hroot; [|discriminate (Hsub eq_refl)].
-    assert (H1 : violated R_SingleFieldSubscriptions s d = true) by (apply (sfs_of_subscription_typename s d t E Hroot)).
-    assert (H2 : violated R_SingleFieldSubscriptions s d' = true)
-      by (rewrite <- (violated_wrap R_SingleFieldSubscriptions s d d' Hd); [exact H1|discriminate]).
-    assert (Hin : In R_SingleFieldSubscriptions all_rules) by (right; right; left; reflexivity).
-    rewrite (forallb_false_in _ _ _ Hin) by (rewrite H1; reflexivity).
-    rewrite (forallb_false_in _ _ _ Hin) by (rewrite H2; reflexivity). reflexivity.
-  - apply forallb_ext_in. intros r _. f_equal.
-    destruct r; try (apply violated_wrap; [exact Hd|discriminate]).
-    apply (violated_wrap_fields_on_correct_type s d d' Hd), E.
-Qed.
-
-(* in particular: every schema with a subscription root type, every document without subscriptions *)
-Corollary spec_valid_wrap_subscription_root : forall s d d', wrap_doc d d' ->
-  is_some (root s OpSubscription) = true -> spec_valid s d = spec_valid s d'.
-Proof. intros s d d' Hd H. apply spec_valid_wrap; [exact Hd|intros _; exact H]. Qed.
 
 (* ------------------------------------------------------------------ the model's verdicts *)
 Section SideW.
@@ -1305,17 +1283,17 @@ Section SideW.
 End SideW.
 
 Theorem run_alone_wrap : forall r s d d',
-  r <> R_OverlappingFieldsCanBeMerged -> r <> R_FieldsOnCorrectType ->
+  r <> R_OverlappingFieldsCanBeMerged ->
   wf_schema s = true -> doc_types_proper d = true -> defaults_const d = true ->
   distinct_fragments d = true -> rule_in_scope r s d = true ->
   wrap_doc d d' ->
   (run_alone r s d = [] <-> run_alone r s d' = []).
 Proof.
-  intros r s d d' Hr Hr2 Hwf Hty Hdc Hdf Hsc Hd.
+  intros r s d d' Hr Hwf Hty Hdc Hdf Hsc Hd.
   assert (Hside : side r s d) by (repeat split; assumption).
   rewrite (nil_iff_false _ _ (rule_iff r s d Hr Hside)).
   rewrite (nil_iff_false _ _ (rule_iff r s d' Hr (side_wrap s d d' Hd r Hside))).
-  rewrite (violated_wrap r s d d' Hd Hr2). reflexivity.
+  rewrite (violated_wrap r s d d' Hd). reflexivity.
 Qed.
 
 (* ------------------------------------------------------------------ examples and counterexamples *)
@@ -1340,23 +1318,37 @@ Proof.
   apply (WLwrap wsel cx_z (cx_z, cx_z) [x] [x] [] []); [discriminate|apply wsels_refl|constructor].
 Qed.
 
-(* FieldsOnCorrectType is not invariant: wrapping hides a __typename at a subscription root *)
-Lemma wrap_fields_on_correct_type_cex :
+(* FieldsOnCorrectType on the documents that used to separate it:  subscription S { __typename }  and
+   subscription S { ... { __typename } }  get the same verdict, from the specification and from the model *)
+Example wrap_fields_on_correct_type_example :
   wf_schema wx_schema_sub = true /\
   wrap_doc (wx_sub [cx_field "__typename"]) (wx_sub [wx_wrap [cx_field "__typename"]]) /\
   violated R_FieldsOnCorrectType wx_schema_sub (wx_sub [cx_field "__typename"]) = true /\
-  violated R_FieldsOnCorrectType wx_schema_sub (wx_sub [wx_wrap [cx_field "__typename"]]) = false /\
+  violated R_FieldsOnCorrectType wx_schema_sub (wx_sub [wx_wrap [cx_field "__typename"]]) = true /\
+  run_alone R_FieldsOnCorrectType wx_schema_sub (wx_sub [cx_field "__typename"]) =
+    [err R_FieldsOnCorrectType [cx_z]] /\
+  run_alone R_FieldsOnCorrectType wx_schema_sub (wx_sub [wx_wrap [cx_field "__typename"]]) =
+    [err R_FieldsOnCorrectType [cx_z]] /\
   spec_valid wx_schema_sub (wx_sub [cx_field "__typename"]) = false /\
   spec_valid wx_schema_sub (wx_sub [wx_wrap [cx_field "__typename"]]) = false.
 Proof. split; [vm_compute; reflexivity|]. split; [apply wx_sub_wrap|]. repeat split; vm_compute; reflexivity. Qed.
 
-(* and where the schema has no subscription root type, accept / reject changes *)
-Lemma wrap_spec_valid_cex :
+(* and where the schema has no subscription root type (only FieldsOnCorrectType objects to the
+   document), accept / reject no longer changes: both documents are rejected *)
+Example wrap_spec_valid_example :
   wf_schema cx_schema = true /\
+  root cx_schema OpSubscription = None /\
   wrap_doc (wx_sub [cx_field "__typename"]) (wx_sub [wx_wrap [cx_field "__typename"]]) /\
   spec_valid cx_schema (wx_sub [cx_field "__typename"]) = false /\
-  spec_valid cx_schema (wx_sub [wx_wrap [cx_field "__typename"]]) = true.
-Proof. split; [vm_compute; reflexivity|]. split; [apply wx_sub_wrap|]. split; vm_compute; reflexivity. Qed.
+  spec_valid cx_schema (wx_sub [wx_wrap [cx_field "__typename"]]) = false /\
+  run_alone R_FieldsOnCorrectType cx_schema (wx_sub [cx_field "__typename"]) =
+    [err R_FieldsOnCorrectType [cx_z]] /\
+  run_alone R_FieldsOnCorrectType cx_schema (wx_sub [wx_wrap [cx_field "__typename"]]) =
+    [err R_FieldsOnCorrectType [cx_z]].
+Proof.
+  split; [vm_compute; reflexivity|]. split; [vm_compute; reflexivity|]. split; [apply wx_sub_wrap|].
+  repeat split; vm_compute; reflexivity.
+Qed.
 
 (* wrapping an empty part is excluded: it would give a leaf field a selection set *)
 Lemma wrap_empty_cex :
@@ -1385,5 +1377,5 @@ Print Assumptions violated_wrap.
 Print Assumptions violated_wrap_fields_on_correct_type.
 Print Assumptions spec_valid_wrap.
 Print Assumptions run_alone_wrap.
-Print Assumptions wrap_fields_on_correct_type_cex.
-Print Assumptions wrap_spec_valid_cex.
+Print Assumptions wrap_fields_on_correct_type_example.
+Print Assumptions wrap_spec_valid_example.
